@@ -340,7 +340,7 @@ def run(ctx):
                "a connection lost during the re-PREPARE moves the request to the next host of the plan")
     ctx.assume("PreparedStatement.keyspace on v3/v4 is set by the harness (session.prepare cannot produce it on these versions)")
     n = ctx.scale(1500, 60000)
-    budget = 35 if ctx.quick else 400
+    budget = 35 if ctx.quick else 300
     base = ctx.seed * 1000003 + (ctx.worker or 0) * 100003
     # the time budget bounds the run on a normal machine; on an overloaded one the floors are still reached (count first, capped)
     min_here = -(-280 // max(1, ctx.nworkers))
